@@ -698,3 +698,55 @@ V("C01", "python-end-inclusive", "fire", (PYL, "end = tokens.index(scope_tokens[
 V("C01", "balanced-swapped", "fire", ("codelimit/common/token_utils.py", "                    result.append((start_index, index))", "                    result.append((index, start_index))"), "pair reversed", "get_balanced_symbol_token_indices/pair")
 V("C01", "balanced-nesting-and", "fire", ("codelimit/common/token_utils.py", "                if extract_nested or len(block_starts) == 0:\n                    result.append((start_index, index))", "                if extract_nested and len(block_starts) == 0:\n                    result.append((start_index, index))"),
   "inner blocks never extracted", "rule=R")
+# ------------------------------------------------------------------ round-4 rules (memo keys, shared automaton, set order of patterns, stale summary ...)
+V("C06", "memo-complete-key-silent", "silent", (TOK, "    def is_comment(self):\n        return self.token_type in Comment\n",
+                                               "    def is_comment(self):\n        return _is_comment_type(self.token_type)\n"),
+  "a memo whose key is the only input of the stored value: results still depend on the content alone")
+VARIANTS[-1]["edits"].append((TOK, "class Token:\n", "_comment_types: dict = {}\n\n\ndef _is_comment_type(token_type):\n    try:\n        return _comment_types[token_type]\n    except KeyError:\n"
+                                   "        result = _comment_types[token_type] = token_type in Comment\n        return result\n\n\nclass Token:\n"))
+V("C06", "memo-key-misses-input", "fire", (TOK, "    def is_whitespace(self):\n        return (\n            self.token_type == Text or self.token_type == Whitespace\n        ) and not self.value.strip()\n",
+                                          "    def is_whitespace(self):\n        if self.value not in _blank_values:\n            _blank_values[self.value] = (\n                self.token_type == Text or self.token_type == Whitespace\n"
+                                          "            ) and not self.value.strip()\n        return _blank_values[self.value]\n"),
+  "memo keyed by the text only: the stored answer also depends on the token type", "_blank_values")
+VARIANTS[-1]["edits"].append((TOK, "class Token:\n", "_blank_values: dict = {}\n\n\nclass Token:\n"))
+V("C06", "memo-key-is-len", "fire", (SCN, "def scan_file(tokens: list[Token], language: Language) -> list[Measurement]:\n    scopes = build_scopes(tokens, language)\n",
+                                    "_scopes_memo: dict = {}\n\n\ndef scan_file(tokens: list[Token], language: Language) -> list[Measurement]:\n    if len(tokens) not in _scopes_memo:\n"
+                                    "        _scopes_memo[len(tokens)] = build_scopes(tokens, language)\n    scopes = _scopes_memo[len(tokens)]\n"),
+  "memo keyed by a function of the input (its length), not the input", "_scopes_memo")
+V("C06", "exclude-patterns-through-set", "fire", (CONF, "            cls.exclude.extend(d[\"exclude\"])", "            cls.exclude.extend(set(d[\"exclude\"]) - set(cls.exclude))"),
+  "exclusion patterns appended in set order: with a negation the set of analysed files depends on the hash seed", "Configuration.load/set-order")
+V("C06", "exclude-patterns-dedup-ordered-silent", "silent", (CONF, "            cls.exclude.extend(d[\"exclude\"])", "            cls.exclude.extend(p for p in d[\"exclude\"] if p not in cls.exclude)"),
+  "duplicates dropped, order kept")
+V("C15", "open-group-memo-on-automaton", "fire", (PAT, "        open_transitions = [t for t in transitions if self._predicate(t[0]).is_open()]\n        if open_transitions:\n            transitions = open_transitions\n",
+                                                 "        if self.state.id not in self.automata.__dict__.setdefault(\"plain\", set()):\n            open_transitions = [t for t in transitions if self._predicate(t[0]).is_open()]\n"
+                                                 "            if open_transitions:\n                transitions = open_transitions\n            else:\n                self.automata.plain.add(self.state.id)\n"),
+  "what one attempt learns about a state is kept on the automaton all attempts share", "history-dependent")
+V("C19", "all-measurements-memo-by-count", "fire", (COB, "    def all_measurements(self) -> list[Measurement]:\n        result = []\n",
+                                                   "    def all_measurements(self) -> list[Measurement]:\n        memo = self.__dict__.get(\"_memo\")\n        if memo and memo[0] == len(self.files):\n            return memo[1]\n        result = []\n"),
+  "flattened measurements validated by the number of files only", "quality_profile/stale")
+VARIANTS[-1]["edits"].append((COB, "            result.extend(entry.measurements())\n        return result\n", "            result.extend(entry.measurements())\n        self._memo = (len(self.files), result)\n        return result\n"))
+V("C13", "identity-eq-any-class-silent", "silent", ("codelimit/common/gsm/predicate/Identity.py", "        if not isinstance(other, Identity):\n            return False\n        return self.item == other.item",
+                                          "        return getattr(other, \"item\", other) == self.item"),
+  "an Identity also equals the bare item; no other predicate class carries an `item`, and the engine never compares a predicate with a bare "
+  "item: every pair of predicate instances compares as before (the first-generation shape rule 'restricted by isinstance' demanded more)")
+V("C13", "tokenvalue-eq-by-attribute", "fire", (PRD + "TokenValue.py", "        if not isinstance(other, TokenValue):\n            return False\n        return self.value == other.value",
+                                               "        return getattr(other, \"value\", None) == self.value or getattr(other, \"symbol\", None) == self.value"),
+  "a TokenValue equals a Symbol / Operator of the same text although they accept different tokens", "eq-own-class")
+V("C13", "identity-eq-match-statement-silent", "silent", ("codelimit/common/gsm/predicate/Identity.py", "        if not isinstance(other, Identity):\n            return False\n        return self.item == other.item",
+                                                         "        match other:\n            case Identity():\n                return self.item == other.item\n            case _:\n                return False"),
+  "the same class restriction written as a class pattern")
+V("C18", "language-totals-falsy-when-empty", "fire", (LT, "    def is_equal(self, other: LanguageTotals) -> bool:", "    def __bool__(self) -> bool:\n        return self.functions > 0\n\n    def is_equal(self, other: LanguageTotals) -> bool:"),
+  "a language without functions in the previous report counts as absent: its figures are diffed against nothing", "rule=R6")
+V("C08", "repository-falsy-when-incomplete", "fire", ("codelimit/common/GithubRepository.py", "    def __str__(self) -> str:", "    def __bool__(self) -> bool:\n        return bool(self.owner)\n\n    def __str__(self) -> str:"),
+  "a repository with an empty owner is dropped from the document", "roundtrip/repository")
+V("C07", "entry-name-normalised", "fire", ("codelimit/common/CodebseEntry.py", "        self.name = get_basename(path)", "        self.name = unicodedata.normalize(\"NFC\", get_basename(path))"),
+  "listed names no longer agree with the tree's keys for decomposed names", "rule=R7")
+VARIANTS[-1]["edits"].append(("codelimit/common/CodebseEntry.py", "from abc import ABC, abstractmethod\n", "import unicodedata\nfrom abc import ABC, abstractmethod\n"))
+V("C04", "sort-key-flattened", "fire", ("codelimit/common/TokenRange.py", "key=lambda tr: (tokens[tr.start].location.line, tokens[tr.start].location.column)", "key=lambda tr: tokens[tr.start].location.line * 1000 + tokens[tr.start].location.column"),
+  "blocks that open beyond column 1000 sort after blocks of the next line", "scan_file/")
+V("C03", "report-commonprefix", "fire", (CR, "                if cwd_path in file.parents:\n                    file_path = str(relpath(file, cwd_path))", "                if os.path.commonprefix([str(file), str(cwd_path)]) == str(cwd_path):\n                    file_path = str(file.relative_to(cwd_path))"),
+  "a sibling directory whose name extends the working directory's passes the string-prefix test and relative_to raises", "ValueError")
+V("C10", "location-interned-by-equality", "fire", (RR, "def _location(d: dict) -> Location:\n    return Location(_typed(d[\"line\"], int), _typed(d[\"column\"], int))",
+                                                  "@lru_cache(maxsize=None)\ndef _mk(line, column) -> Location:\n    return Location(_typed(line, int), _typed(column, int))\n\n\ndef _location(d: dict) -> Location:\n    return _mk(d[\"line\"], d[\"column\"])"),
+  "true / 1.0 hit the memo entry of 1 and skip validation", "rule=R5")
+VARIANTS[-1]["edits"].append((RR, "from json import loads\n", "from functools import lru_cache\nfrom json import loads\n"))
